@@ -382,6 +382,23 @@ pub trait VmType {
     /// # Safety
     /// vm is non-null and valid
     fn to_vm(self, vm: &mut VmGreenThread);
+
+    /// Read this value as a field of a tuple. `void` fields occupy no slot in Abra tuples.
+    fn from_vm_field(vm: &mut VmGreenThread) -> Self
+    where
+        Self: Sized,
+    {
+        Self::from_vm(vm)
+    }
+
+    /// Push this value as a field of a tuple; returns the number of slots pushed.
+    fn to_vm_field(self, vm: &mut VmGreenThread) -> usize
+    where
+        Self: Sized,
+    {
+        self.to_vm(vm);
+        1
+    }
 }
 
 impl VmType for AbraInt {
@@ -434,6 +451,12 @@ impl VmType for () {
 
     fn to_vm(self, vm: &mut VmGreenThread) {
         vm.push_int(0);
+    }
+
+    fn from_vm_field(_vm: &mut VmGreenThread) -> Self {}
+
+    fn to_vm_field(self, _vm: &mut VmGreenThread) -> usize {
+        0
     }
 }
 
@@ -538,12 +561,6 @@ where
     }
 }
 
-macro_rules! replace_expr {
-    ($t:tt, $e:expr_2021) => {
-        $e
-    };
-}
-
 macro_rules! tuple_impls {
     ( $( $name:ident ),+ $(,)? ) => {
         impl<$($name: VmType),+ > VmType for ( $($name,)+ ) {
@@ -552,17 +569,15 @@ macro_rules! tuple_impls {
                 vm.deconstruct_struct();
                 // Pop values in normal order.
                 #[allow(non_snake_case)]
-                let ($($name,)+) = ($( $name::from_vm(vm), )+);
+                let ($($name,)+) = ($( $name::from_vm_field(vm), )+);
                 ($($name,)+)
             }
             fn to_vm(self, vm: &mut VmGreenThread) {
                 // Destructure the tuple.
                 #[allow(non_snake_case)]
                 let ($($name,)+) = self;
-                // Push each element onto the VM in order.
-                $( $name.to_vm(vm); )+
-                // Count the number of elements in the tuple.
-                let count: usize = [$( replace_expr!($name, 1) ),+].len();
+                // Push each element onto the VM in order (void fields take no slot).
+                let count: usize = 0 $( + $name.to_vm_field(vm) )+;
                 // Reconstruct the tuple on the VM.
                 vm.construct_struct(count);
             }
